@@ -39,6 +39,15 @@ def directed_replay_histories():
                 calls.append(c)
             hs.append({"config": {"rs": [20, 3, 1][k % 3], "cache": "file"}, "blobs": [{"seed": 1, "len": 700}, {"seed": 2, "len": 10}], "obs": [], "calls": calls, "_directed": True})
             k += 1
+    # short-lived entries: created and removed again, never written, never re-created (their tombstone keeps the position of the
+    # delete record, their create record lies in front of it, possibly in the same tape record), with and without records in between
+    WC = hist.O_WRONLY | hist.O_CREATE
+    for mk in ({"op": "mkdir", "name": "/t", "perm": 0o755}, {"op": "createfile", "name": "/t", "blob": 2}, {"op": "writefile", "name": "/t", "flags": WC, "perm": 0o644, "blob": 2, "flag": False}):
+        for mid in ([], [{"op": "chmod", "name": "/t", "perm": 0o700}], [{"op": "mkdir", "name": "/other", "perm": 0o755}, {"op": "createfile", "name": "/other/f", "blob": 0}]):
+            for rs in (20, 3, 1):
+                calls = [{"op": "initialize"}, {"op": "mkdir", "name": "/d", "perm": 0o755}, dict(mk)] + [dict(c) for c in mid] + \
+                        [{"op": "remove", "name": "/t"}, {"op": "createfile", "name": "/d/a", "blob": 1}, {"op": "mkdir", "name": "/d/b", "perm": 0o700}]
+                hs.append({"config": {"rs": rs, "cache": "file"}, "blobs": [{"seed": 1, "len": 700}, {"seed": 2, "len": 10}, {"seed": 3, "len": 0}], "obs": [], "calls": calls, "_directed": True})
     return hs
 
 
